@@ -26,6 +26,8 @@ LInit(cfg) == [budget |-> cfg.budget, lru |-> <<>>, ent |-> <<>>, usage |-> 0]
 
 EntKeys(ent) == {ent[i].k : i \in 1..Len(ent)}
 EntOf(ent, k) == ent[CHOOSE i \in 1..Len(ent) : ent[i].k = k]
+RECURSIVE SizeOfKeys(_, _)
+SizeOfKeys(ent, S) == IF S = {} THEN 0 ELSE LET k == CHOOSE x \in S : TRUE IN EntOf(ent, k).size + SizeOfKeys(ent, S \ {k})
 Resident(st, k) == k \in EntKeys(st.ent)
 HasValue(ent, k) == k \in EntKeys(ent) /\ EntOf(ent, k).hasv
 
@@ -67,10 +69,13 @@ Clauses(st, e) ==
         <<"only_touched_keys_appear", post \subseteq pre \cup T>>,
         <<"untouched_entries_unchanged", \A x \in (post \cap surv) : EntOf(p.ent, x) = EntOf(st.ent, x)>>,
         <<"evicted_are_the_least_recently_used", Cardinality(E) <= Len(P) /\ E = SeqToSet(Prefix(P, Cardinality(E)))>>,
+        \* (an operation that puts several entries - a bulk look-up - may, for a later one of them, also drop an entry it touched
+        \*  itself earlier: what that entry occupied counts as room that was needed when the last bystander went)
         <<"evictions_only_when_room_is_needed",
             E # {} => /\ IsPut(e)
                       /\ Cardinality(E) <= Len(P)
-                      /\ LET x == P[Cardinality(E)] IN p.usage + EntOf(st.ent, x).size > B>>,
+                      /\ LET x == P[Cardinality(E)] IN
+                         p.usage + EntOf(st.ent, x).size + SizeOfKeys(st.ent, (pre \cap T) \ post) > B>>,
         <<"relative_recency_of_untouched_preserved", Restrict(p.lru, surv) = Restrict(P, post)>>,
         <<"new_entries_are_most_recent",
             \A n \in post \ pre : \A s \in post \cap surv : IndexOf(p.lru, n) > 0 /\ IndexOf(p.lru, s) < IndexOf(p.lru, n)>> >>
